@@ -58,7 +58,7 @@ LAYOUTS = [None, None, "F", "F", "T", "neg", "sliced", "bcast", "relaxed", "offs
 
 
 def _seed(draw, shape):
-    kind = draw(st.sampled_from(["none", "scalar", "full", "full_F", "full_F"] if len(shape) >= 2 else ["none", "scalar", "full", "full"]))
+    kind = draw(st.sampled_from(["none", "scalar", "full", "full", "full_F", "full_F"] if len(shape) >= 2 else ["none", "scalar", "full", "full"]))
     if kind == "none":
         return None
     if kind == "scalar":
